@@ -313,11 +313,11 @@ def plan(run, rng):
         for i, sub in enumerate(subsets):
             # a deviation must be visible: at least one shell type on which the vendor deviates (else the file is standard)
             for fmt in ("molden", "molekel"):
-                combos = [(["AU", "Angs", "(AU)", "(Angs)", "ANGS", "au"][i % 6], bool(i % 2))]
+                combos = [(rng.choice(["AU", "Angs", "(AU)", "(Angs)", "ANGS", "au"]), rng.random() < 0.5)]
                 if run.thorough():
                     combos = [(u, r) for u in ("AU", "Angs", "(AU)", "(Angs)") for r in (False, True)]
                 for k, (unit, unres) in enumerate(combos):
-                    thr = [1e-4, 1e-5, 1e-3][(i + k) % 3]
+                    thr = rng.choice([1e-4, 1e-5, 1e-3])
                     tnames = list(sub) + ([rng.choice(sub)] if rng.random() < 0.4 else [])
                     if fmt == "molekel" and any(t in ("hp",) for t in tnames):
                         continue
